@@ -126,3 +126,12 @@ package quic
 //@   after call CompressConfig: lvl = res0.Level
 //@   assert call CompressConfig: arg1 == config.CompressConfig
 //@   assert call OpenUniStream: t.compressConfig.Enable == en && t.compressConfig.Level == lvl && t.sequenceNumber == 4294967295 && t.readBufferForUnreliable != nil && t.readBufferForUnreliable.ReadBuffer != nil && len(t.readBufferForUnreliable.ReadBuffer) == 0 && t.readBufferForUnreliable.ReadBufferExpiry == ite(old(config.ReadBufferExpiry) == 0, 10000000000, old(config.ReadBufferExpiry))
+
+// The inflated message handed up is exactly the slice io.ReadAll allocated for it - memory
+// nobody else holds (never a pooled or reused buffer), so a message still queued in the read
+// channel cannot be overwritten by the next one.
+//@ func decodeWithCompression
+//@   props C13
+//@   ghostvar got []byte = nil
+//@   after call io.ReadAll: got = res0
+//@   ensures imp(result1 == nil, result0 == got)
